@@ -75,7 +75,7 @@ def main():
     expect('Api: driver re-validated something else than the stored value -> M1', run_trace('Trace_Api', t), 'M1')
     # ---- Trace_Runtime
     def hk(seq, th, ev, key, oid=7, full=False):
-        return {'tid': seq, 'run': 1, 'seq': seq, 'th': th, 'tseq': seq, 'cache': 'numdb', 'ev': ev, 'key': key, 'oid': oid, 'full': full}
+        return {'tid': seq, 'run': 1, 'seq': seq, 'th': th, 'tseq': seq, 'cache': 'numdb', 'ev': ev, 'key': key, 'oid': oid, 'full': full, 'keys': ['iban'] + (['isbn'] if (seq >= 5 or (ev == 'store')) else [])}
     good = [hk(1, 't1', 'enter', 'isbn'), hk(2, 't1', 'miss', 'isbn'), hk(3, 't2', 'enter', 'isbn'), hk(4, 't2', 'miss', 'isbn'),
             hk(5, 't1', 'store', 'isbn', 7, True), hk(6, 't1', 'ret', 'isbn', 7, True), hk(7, 't2', 'store', 'isbn', 8, True),
             hk(8, 't2', 'ret', 'isbn', 8, True), hk(9, 't3', 'enter', 'isbn'), hk(10, 't3', 'ret', 'isbn', 8, True)]
